@@ -97,6 +97,26 @@ func init() {
 				sp.Chunks = hexChunks(keys)
 				return Case{Specs: []Spec{sp}, Class: "yanks/vi", Meta: map[string]string{"part": "yanks", "pre": fmt.Sprint(pre)}}
 			}
+			if r.Intn(8) == 0 {
+				// part E: Vi command mode, a non-incremental history search (/ or ?, a pattern that is empty, shorter,
+				// as long as or longer than the line it fetches, RET), then search-again keys and movements: the
+				// state invariants at every wait (the cursor on a character in command mode)
+				sp := Spec{Prompt: "> ", Mode: "vi", Runs: 1, History: stdHistory}
+				keys := []string{"\x1b"}
+				for k := 1 + r.Intn(3); k > 0; k-- {
+					keys = append(keys, []string{"?", "/"}[r.Intn(2)])
+					for _, ch := range []string{"", "one", "three", "one two three", "one two", "zzz", "t", "one two three four"}[r.Intn(8)] {
+						keys = append(keys, string(ch))
+					}
+					keys = append(keys, "\r")
+					for j := r.Intn(3); j > 0; j-- {
+						keys = append(keys, []string{"n", "N", "l", "h", "$", "x"}[r.Intn(6)])
+					}
+				}
+				c := Case{Specs: []Spec{sp}, Keys: hexChunks(keys), Class: "invariants/vi-search", Meta: map[string]string{"part": "invariants"}}
+				c.Specs[0].Chunks = c.Keys
+				return c
+			}
 			if r.Intn(2) == 0 {
 				// part A: state invariants at every wait of a random session; returned line = accepted buffer
 				sp := baseSpec(r)
